@@ -587,7 +587,12 @@ public:
 
                 if constexpr(IsPeriodic){
                     for(long int idxDim = 0 ; idxDim < Dim ; ++idxDim){
-                        otherPos[idxDim] = ((otherPos[idxDim]+boxLimite)%boxLimite);
+                        if(otherPos[idxDim] < 0){
+                            otherPos[idxDim] += boxLimite;
+                        }
+                        else if(boxLimite <= otherPos[idxDim]){
+                            otherPos[idxDim] -= boxLimite;
+                        }
                     }
                     [[maybe_unused]] const auto generatedPos = getRelativePosFromNeighborIndex(arrayPos);
                     for(long int idxDim = 0 ; idxDim < Dim ; ++idxDim){
@@ -690,7 +695,12 @@ public:
 
                     if constexpr(IsPeriodic){
                         for(long int idxDim = 0 ; idxDim < Dim ; ++idxDim){
-                            otherPos[idxDim] = ((otherPos[idxDim]+boxLimite)%boxLimite);
+                            if(otherPos[idxDim] < 0){
+                                otherPos[idxDim] += boxLimite;
+                            }
+                            else if(boxLimite <= otherPos[idxDim]){
+                                otherPos[idxDim] -= boxLimite;
+                            }
                         }
                     }
 
